@@ -206,7 +206,7 @@ func intrStretch(in *interp, fr *frame, fn *ssa.Function, args []value) value {
 				gi.extra = p.newVar(fmt.Sprintf("%sgapx%d", tag, idx), sStr)
 				p.assume(tEq(tLen(gi.extra), gi.delta))
 				p.assume(tInRe(gi.extra, `(re.* (str.to_re " "))`))
-				in.uniformVars()[gi.extra.s] = ' ' 
+				in.uniformVars()[gi.extra.s] = ' '
 				st.gaps = append(st.gaps, gi)
 			}
 			st.bounds[prevEnd] = true
@@ -541,11 +541,11 @@ func (in *interp) stretchByName(v value) *stretchState {
 
 type region struct {
 	// positions Start + o for 0 <= o <= n where n = width (+ delta)
-	start    hcl.Pos // seed position of the region start (a token boundary)
-	width    int
-	delta    *term // extra symbolic width (gaps) or nil
-	points   []hcl.Pos // if non-nil: only these concrete seed positions (multi-byte / multi-line tokens)
-	what     string
+	start  hcl.Pos // seed position of the region start (a token boundary)
+	width  int
+	delta  *term     // extra symbolic width (gaps) or nil
+	points []hcl.Pos // if non-nil: only these concrete seed positions (multi-byte / multi-line tokens)
+	what   string
 }
 
 func (st *stretchState) regions() []region {
